@@ -416,8 +416,20 @@ fn tp_now() -> (Option<String>, Option<String>, bool) {
     (
         tp.trace_id().map(|t| t.to_string()),
         tp.span_id().map(|t| t.to_string()),
-        tp.trace_flags().is_sampled(),
+        // read the flag from the rendered header, not through the library's own `is_sampled`
+        flags_sampled(&tp.to_string()),
     )
+}
+
+/// The sampled bit of a rendered / incoming `traceparent` header (`vv-<trace>-<span>-ff`): bit 0 of the last byte,
+/// whatever other flag bits are set (W3C: unknown bits are to be ignored, not to unset the ones that are known).
+fn flags_sampled(header: &str) -> bool {
+    header
+        .rsplit('-')
+        .next()
+        .and_then(|ff| u8::from_str_radix(ff, 16).ok())
+        .map(|ff| ff & 1 == 1)
+        .unwrap_or(false)
 }
 
 fn observe(w: &World, st: &Strand, whence: &'static str) {
@@ -1019,7 +1031,7 @@ fn hex_ids(inc: &Incoming) -> Option<(Option<String>, Option<String>, bool)> {
         )),
         Incoming::Header { text } => Traceparent::try_from_str(text).ok().and_then(|tp| {
             match (tp.trace_id(), tp.span_id()) {
-                (Some(t), Some(s)) => Some((Some(t.to_string()), Some(s.to_string()), tp.trace_flags().is_sampled())),
+                (Some(t), Some(s)) => Some((Some(t.to_string()), Some(s.to_string()), flags_sampled(text))),
                 _ => None,
             }
         }),
@@ -1419,11 +1431,15 @@ pub fn gen_nodes(ch: &mut Choices, cfg: &GenCfg, depth: u32, budget: &mut u32, n
                 let inc = if TP {
                     let t = 0xabc0_0000_0000_0000_0000_0000_0000_0000u128 + *next as u128;
                     let s = 0xdef0_0000_0000_0000u64 + *next as u64;
-                    let text = match ch.weighted(&[5, 3, 1, 1]) {
+                    let text = match ch.weighted(&[5, 3, 1, 1, 2, 1]) {
                         0 => format!("00-{t:032x}-{s:016x}-01"),
                         1 => format!("00-{t:032x}-{s:016x}-00"),
                         2 => format!("00-{t:032x}-{s:016x}-zz"),
-                        _ => format!("01-{t:032x}-{s:016x}"),
+                        3 => format!("01-{t:032x}-{s:016x}"),
+                        // the sampled bit next to other flag bits (03 = sampled + random-trace-id of W3C level 2)
+                        4 => format!("00-{t:032x}-{s:016x}-{}", *ch.pick(&["03", "81", "ff", "05"])),
+                        // other bits without the sampled one
+                        _ => format!("00-{t:032x}-{s:016x}-{}", *ch.pick(&["02", "fe", "80"])),
                     };
                     Incoming::Header { text }
                 } else {
